@@ -16,8 +16,9 @@ RULE = (
     '>=3 rows or with ties in the sort column; grid with incomplete last row; combination of >=2 lists with >=2 '
     'items each. Round 4: refused assignments (non-sequence values) must leave the table as it was; attribute '
     'access of absent keys; abandoned and interleaved enumerations. Later rounds: constructor rows given as '
-    'dicts; exceptions raised by enumeration or sort are violations; unsigned and boolean columns. Distinct = '
-    'distinct canonical JSON of the whole case.'
+    'dicts; exceptions raised by enumeration or sort are violations; unsigned and boolean columns. Round 8: '
+    'dtype=str columns; list columns of mixed number types; refused rows (one value short, one too many, an '
+    'undeclared key). Distinct = distinct canonical JSON of the whole case.'
 )
 ASSUMPTIONS = [
     "keys are non-empty identifier strings not shadowed by class attributes; values have as many entries as fields",
